@@ -32,7 +32,7 @@ func kindOfDatatype(dt string) string {
 		return "bool"
 	case dt == xsdNS+"dateTime":
 		return "time"
-	case strings.HasPrefix(dt, xsdNS) && strings.HasSuffix(dt, "nteger"):
+	case dt == xsdNS+"integer" || dt == xsdNS+"nonNegativeInteger" || dt == xsdNS+"positiveInteger" || dt == xsdNS+"negativeInteger" || dt == xsdNS+"nonPositiveInteger":
 		return "int"
 	}
 	return "str"
